@@ -39,7 +39,8 @@ TP(t, p) == <<t, p>>
 D_Produce(tp) == [cls |-> "leader", api |-> "Produce", tps |-> <<tp>>]
 D_Fetch(tp) == [cls |-> "leader", api |-> "Fetch", tps |-> <<tp>>]
 D_List(tps) == [cls |-> "split", api |-> "ListOffsets", tps |-> tps]
-D_Meta(names) == [cls |-> "cache", api |-> "Metadata", names |-> names]
+D_Meta(names) == [cls |-> "cache", api |-> "Metadata", names |-> names, all |-> FALSE]
+D_MetaAll == [cls |-> "cache", api |-> "Metadata", names |-> << >>, all |-> TRUE]
 D_Commit == [cls |-> "coord", api |-> "OffsetCommit"]
 D_InitPid == [cls |-> "txn", api |-> "InitProducerId"]
 D_Create(t) == [cls |-> "ctrlr", api |-> "CreateTopics", topic |-> t]
@@ -54,6 +55,16 @@ MC_Reqs2 == {1, 2}
 MC_Menu2 == [r \in MC_Reqs2 |->
    IF r = 1 THEN {D_Produce(TP("t1", 0)), D_List(<<TP("t1", 0), TP("t1", 1)>>), D_Commit}
    ELSE {D_Fetch(TP("t1", 0)), D_Meta(<<"t2", "t1">>), D_Create("t2"), D_InitPid}]
+\* quick configurations
+MC_MenuQ1 == [r \in MC_Reqs2 |->
+   IF r = 1 THEN {D_Produce(TP("t1", 0)), D_List(<<TP("t1", 0), TP("t1", 1)>>)}
+   ELSE {D_Meta(<<"t2", "t1">>), D_Commit}]
+MC_MenuQ2 == [r \in MC_Reqs2 |->
+   IF r = 1 THEN {D_Produce(TP("t1", 0))}
+   ELSE {D_Fetch(TP("t1", 0)), D_Commit}]
+MC_MenuQ3 == [r \in MC_Reqs2 |->
+   IF r = 1 THEN {D_Create("t2")}
+   ELSE {D_Produce(TP("t2", 0)), D_InitPid}]
 MC_Reqs0 == {}
 MC_Menu0 == << >>
 
